@@ -61,6 +61,10 @@ def cases(draw):
         st.builds(lambda k, d: [{"op": "step", "beh": {"kind": "fail_by_attempt", "k": k, "err": "UserError", "v": 1}, "sem": "least",
                                  "retry": {"kind": "table", "max": 4, "delays": [d], "nonretry": []}}], st.integers(1, 2), st.sampled_from([0, 1, 1, 2])),
         st.just([{"op": "wfcond", "init": 0, "decisions": [["continue", 1], ["continue", 0], ["stop"]], "trans": "count"}]),
+        # parked on an external party (no timer at all) next to a sibling that is still running
+        st.just([{"op": "callback", "between": []}]),
+        st.just([{"op": "wfcb"}]),
+        st.builds(lambda to: [{"op": "invoke", "fn": "f", "payload": 1, **({"timeout": to} if to else {})}], st.sampled_from([0, 0, 2])),
     )
     runner = st.builds(lambda sl, y: [{"op": "step", "beh": {"kind": "ret", "v": 5}, "sem": "least", "retry": {"kind": "none"}, "sleep": sl, "yields": y}],
                        st.sampled_from([1.5, 2.5, 3.5, 5.0]), st.integers(0, 2))
